@@ -258,6 +258,47 @@ def rows_minus_chunk_fn(strand):
     return fn
 
 
+def parse_cds_only_fn(strand):
+    """GFF3 written by gene finders / for prokaryotes: a gene with an mRNA that has CDS rows but NO exon rows (BioCantor's own writer never produces this, so the
+    export -> parse legs cannot reach the code): the parsed transcript's exons are exactly the CDS segments - also 1-nt segments, first, inner or last - its
+    CDS blocks are those segments and every CDS position can be placed on the transcript"""
+    sym = "+" if strand is PLUS else "-"
+
+    def fn(s0, l0, g1, l1, g2, l2, nseg):
+        s0, l0, g1, l1, g2, l2, nseg = concretize(s0, l0, g1, l1, g2, l2, nseg)
+        with untraced():
+            import logging
+            import os
+
+            from inscripta.biocantor.io.gff3.parser import parse_standard_gff3
+
+            segs = [(s0, s0 + l0), (s0 + l0 + g1, s0 + l0 + g1 + l1), (s0 + l0 + g1 + l1 + g2, s0 + l0 + g1 + l1 + g2 + l2)][:nseg]
+            rows = ["##gff-version 3", "##sequence-region chr1 1 500",
+                    "\t".join(["chr1", "t", "gene", str(segs[0][0] + 1), str(segs[-1][1]), ".", sym, ".", "ID=gene1;gene_id=G1"]),
+                    "\t".join(["chr1", "t", "mRNA", str(segs[0][0] + 1), str(segs[-1][1]), ".", sym, ".", "ID=tx1;Parent=gene1;transcript_id=T1"])]
+            for i, (a, b) in enumerate(segs):
+                rows.append("\t".join(["chr1", "t", "CDS", str(a + 1), str(b), ".", sym, "0", "ID=cds%d;Parent=tx1" % i]))
+            path = _tmp_path("cdsonly")
+            logging.disable(logging.CRITICAL)
+            try:
+                with warnings.catch_warnings():
+                    warnings.simplefilter("ignore")
+                    with open(path, "w") as fh:
+                        fh.write("\n".join(rows) + "\n")
+                    recs = list(parse_standard_gff3(path))
+                    coll = recs[0].annotation.to_annotation_collection()
+            finally:
+                logging.disable(logging.NOTSET)
+                if os.path.exists(path):
+                    os.remove(path)
+            tx = coll.genes[0].transcripts[0]
+            ok = [(b.start, b.end) for b in tx.chromosome_location.blocks] == segs and tx.is_coding and [(b.start, b.end) for b in tx.cds.chromosome_location.blocks] == segs
+            n = sum(b - a for a, b in segs)
+            return ok and len(tx.cds) == n and sorted(tx.cds_pos_to_transcript(i) for i in range(n)) == list(range(n)) and tx.strand is strand
+
+    return fn
+
+
 def rows_pre(mode, frames=None, strand=None):
     def pre(**kw):
         if mode == "chunk_rel" and frames is not None and len(frames) == 2:
@@ -726,6 +767,14 @@ def obligations(tier):
                             "twin's, chunk-relative rows are their mirror image with the strand of the chunk coordinate system on every row and unchanged phases, sorted by start",
                        bounds="exons 4..6 nt, intron 2..3, CDS start / end 0..2 nt inside the outer exons, chunk of 30 nt at 3..5 holding everything (realised)",
                        examples=[dict(s0=6, l0=5, g=2, l1=6, co=1, ce=2, w=4), dict(s0=3, l0=4, g=3, l1=4, co=0, ce=0, w=3)]))
+    for strand in (PLUS, MINUS):
+        out.append(Obl("parse_cds_only_transcript_%s" % sname(strand), parse_cds_only_fn(strand), dict(s0=int, l0=int, g1=int, l1=int, g2=int, l2=int, nseg=int),
+                       lambda s0, l0, g1, l1, g2, l2, nseg: 10 <= s0 and s0 <= 11 and 1 <= l0 and l0 <= 3 and 2 <= g1 and g1 <= 3 and 1 <= l1 and l1 <= 3 and g2 == 2 and 1 <= l2 and
+                       l2 <= 3 and 1 <= nseg and nseg <= 3, budget=900, cost=60,
+                       desc="GFF3 text with a gene / mRNA / CDS rows and no exon rows, 1..3 CDS segments of 1..3 nt: parse_standard_gff3 builds a coding transcript whose "
+                            "exons and CDS blocks are exactly the segments (1-nt segments included) and on which every CDS position can be placed",
+                       bounds="1..3 CDS segments of 1..3 nt, gaps 2..3, start 10..11 (realised), parsed by gffutils natively",
+                       examples=[dict(s0=10, l0=3, g1=2, l1=1, g2=2, l2=3, nseg=3), dict(s0=11, l0=1, g1=3, l1=2, g2=2, l2=1, nseg=2)]))
     out.append(Obl("escape_tables", _smt_escape, {}, None, kind="smt", twin=False, cost=3, concrete=_escape_concrete,
                    desc="live escape tables: pattern alternatives == map keys; every reserved character (tab, newline, CR, ; = > space %% and , in the "
                         "with-comma map) is a key (z3 over all code points); every image is %% + the two upper-case hex digits of the code point",
